@@ -33,6 +33,9 @@ def gen_case(seed, tier="quick"):
         vals = [C.value(rng, g) for _ in range(n)]
         if dt in ("i8", "i4"):
             vals = [int(round(v)) or 1 for v in vals]
+            if dt == "i8" and rng.random() < 0.3:
+                # integers a float64 cannot represent: coordinates must come back exactly
+                vals = [v + (2 ** 53 + 1 if rng.random() < 0.5 else 0) for v in vals]
         cols[g] = vals
     how = rng.choice(("cols", "rows", "cls", "view", "dtobj")) if (len(shape) == 1 and n > 0) else "cols"
     order = list(range(len(gn)))
@@ -50,6 +53,21 @@ def gen_case(seed, tier="quick"):
         steps.append(st)
     return {"kind": "deriv19", "seed": seed, "sys": list(sys_), "mom": mom, "names": names, "gnames": gn, "shape": shape, "dtype": dt,
             "cols": cols, "how": how, "order": order, "steps": steps, "fresh": rng.random() < (0.1 if tier == "thorough" else 0.004)}
+
+
+def _py(x):
+    return x.item() if hasattr(x, "item") else x
+
+
+def _same_number(a, b):
+    """Exact: Python compares int and float exactly, so 2**53+1 != float(2**53+1)."""
+    a, b = _py(a), _py(b)
+    try:
+        if a != a and b != b:
+            return True
+        return a == b
+    except Exception:
+        return False
 
 
 def _generic(names):
@@ -181,7 +199,7 @@ def check_array(vector, L, i, st, viol, case, deep=True):
                     continue
                 for q, g in enumerate(cn):
                     wv = t[idx][g]
-                    if float(c[q]) != float(wv) and not (float(c[q]) != float(c[q]) and float(wv) != float(wv)):   # the number, whatever scalar type carries it
+                    if not _same_number(c[q], wv):   # the number, whatever scalar type carries it - but exactly
                         viol.append(_viol("element-values", i, st, f"[{key}].{g} = {c[q]!r} expected {wv!r}"))
     return True
 
@@ -202,7 +220,7 @@ def _check_element(vector, L, el, rec, i, st, viol, case, origin):
             viol.append(_viol("element-coordinate-class", i, st, f"{origin}.{gname} is {type(c).__name__} expected {wantc}"))
             continue
         for q, g in enumerate(cn):
-            if float(c[q]) != float(rec[g]) and not (float(c[q]) != float(c[q]) and float(rec[g]) != float(rec[g])):
+            if not _same_number(c[q], rec[g]):
                 viol.append(_viol("element-values", i, st, f"{origin}.{g} = {c[q]!r} expected {rec[g]!r}"))
 
 
@@ -474,6 +492,12 @@ def run_case(case, vector):
             idx = tuple(r[q % 4] % s for q, s in enumerate(a.shape))
             try:
                 el = a[idx if len(idx) != 1 else idx[0]]
+                expect = {g: t[idx][g] for g in gn[:Ldim]}
+                if r[3] % 3 == 0:
+                    # an object whose coordinates have mixed numeric types (a Python float next to array scalars)
+                    g0 = gn[r[2] % Ldim]
+                    setattr(el, g0, 0.1)
+                    expect[g0] = 0.1
                 arrs = [("__array__", el.__array__()), ("asanyarray", numpy.asanyarray(el))]
                 plain = numpy.asarray(el)
             except Exception as e:
@@ -486,8 +510,11 @@ def run_case(case, vector):
                     viol.append(_viol("object-array-form-class", i, dict(st, what=nm), f"{type(oa).__name__}{rdt.names} expected {wcls.__name__}{tuple(gn)}"))
                     continue
                 for g, fld in zip(gn[:Ldim], rdt.names):
-                    if float(numpy.asarray(oa.view(numpy.ndarray)[fld]).ravel()[0]) != float(t[idx][g]):
-                        viol.append(_viol("object-array-form-values", i, dict(st, what=nm), f"{g}: {oa.view(numpy.ndarray)[g]} expected {t[idx][g]}"))
+                    got = numpy.asarray(oa.view(numpy.ndarray)[fld]).ravel()[0]
+                    # the array form of an object is float64 by design: equal as float64 (a Python float next to
+                    # float32 scalars must still arrive unrounded, an integer beyond 2**53 cannot)
+                    if float(got) != float(_py(expect[g])) and not (got != got):
+                        viol.append(_viol("object-array-form-values", i, dict(st, what=nm), f"{g}: {got!r} expected {expect[g]!r}"))
             if type(plain) is not numpy.ndarray or _generic(plain.dtype.names) != tuple(gn[:Ldim]):
                 viol.append(_viol("object-asarray", i, st, f"{type(plain).__name__} {plain.dtype}"))
             continue
